@@ -152,6 +152,25 @@ Theorem each_committed_entry_once :
 Proof. exact each_committed_entry_once_proved. Qed.
 Print Assumptions each_committed_entry_once.
 
+(* a streamed image is never labelled below what it contains (the receiver would be handed the
+   entries between the label and the image's content a second time): needs the generated fact
+   ready_to_stream_checks_applied (ReadyToStream: applied index >= index returned by Open) *)
+Theorem stream_label_covers_image :
+  forall applied init disk q l od,
+  a_err (handle_tasks (a_start applied init disk) q) = 0%N ->
+  In (Some (l, od)) (streams_of (handle_tasks (a_start applied init disk) q)) -> (od <= l)%N.
+Proof. exact stream_label_covers_image_proved. Qed.
+Print Assumptions stream_label_covers_image.
+
+Theorem ready_to_stream_guard_needed :
+  streams_of (handle_tasks (a_start_g false 2 6 true) [TEntries [mkEntry 3 KUpdate 7; mkEntry 4 KUpdate 8]; TStream])
+    = [Some (4, 6)]%N
+  /\ streams_of (handle_tasks (a_start 2 6 true) [TEntries [mkEntry 3 KUpdate 7; mkEntry 4 KUpdate 8]; TStream;
+                                                   TEntries [mkEntry 5 KUpdate 9; mkEntry 6 KUpdate 1; mkEntry 7 KUpdate 2]; TStream])
+    = [None; Some (7, 7)]%N.
+Proof. exact ready_to_stream_guard_needed_proved. Qed.
+Print Assumptions ready_to_stream_guard_needed.
+
 (* rebuild_is_snapshot_plus_suffix_partial: not stated here. What is proved: a
    recover task moves the index to the snapshot's index and the entries after it
    are delivered by the theorem above (handle_task TRecover); that the snapshot
